@@ -409,6 +409,6 @@ def make_lists(
     step_size = step_size[0]
     return [
         [step_size * value + (0.5 * step_size if centre_steps else 0)] + sub_list
-        for value in range(int((1 / step_size)))
+        for value in range(round(1 / step_size))
         for sub_list in sub_lists
     ]
